@@ -129,6 +129,11 @@ static void handle(size_t nw, char **w) {
 		free(o); free(key.p); free(b.p);
 	}
 	else if (!strcmp(op, "bca") && nw == 4) {        /* bca enc|dec key blk : block_cipher.c dispatch, aes128 object */
+#ifndef ENABLE_AES
+		/* the aes128 object exists only when block_cipher.c and this file are compiled with -DENABLE_AES
+		 * (run.py does that; a plain build, e.g. ./check --replay, still links) */
+		printf("ERR no-aes128-object");
+#else
 		buf_t key = hex2buf(w[2]), b = hex2buf(w[3]); BLOCK_CIPHER_KEY k; uint8_t *o = malloc(16); int r;
 		const BLOCK_CIPHER *c = BLOCK_CIPHER_aes128();
 		if (key.n != 16 || b.n != 16 || c->key_size != 16 || c->block_size != 16) { printf("ERR bad-op"); }
@@ -138,6 +143,7 @@ static void handle(size_t nw, char **w) {
 			if (r) puthex(o, 16); else printf("ERR");
 		}
 		free(o); free(key.p); free(b.p);
+	#endif
 	}
 	else if (!strcmp(op, "ecbblocks") && nw == 5) {  /* ecbblocks enc|dec key data ip */
 		buf_t key = hex2buf(w[2]), d = hex2buf(w[3]); int ip = atoi(w[4]); SM4_KEY k;
